@@ -26,11 +26,15 @@ def run(ctx):
         runs.append(("exh5", dict(evm="EvmS", ont="OntQ", max_ops=5), None))
         runs.append(("fullD", dict(evm="EvmD", ont="OntQ", max_ops=20, max_block_txs=1), None))   # complete graph, depth 10
         runs.append(("fullH", dict(evm="EvmH", ont="OntNone", max_ops=20, max_block_txs=1), None))  # complete graph, depth 10
+        # complete graph with 3 committed blocks and a 2-block validator window: the window slides, competing nonce-1 txs
+        runs.append(("fullW", dict(evm="EvmD", ont="OntNone", max_ops=40, max_block_txs=1, max_height=4), None))
         runs.append(("simT", dict(evm="EvmT", ont="OntT", max_ops=16, max_height=4), ("num=1500", 16)))
         runs.append(("simQ", dict(evm="EvmQ", ont="OntQ", max_ops=14, max_height=4, max_blocks=1, max_tx=2), ("num=1000", 14)))
     else:
         runs.append(("fullD", dict(evm="EvmD", ont="OntQ", max_ops=20, max_block_txs=1), None))   # complete graph, depth 10
         runs.append(("fullH", dict(evm="EvmH", ont="OntNone", max_ops=20, max_block_txs=1), None))  # complete graph, depth 10
+        # complete graph with 3 committed blocks and a 2-block validator window: the window slides, competing nonce-1 txs
+        runs.append(("fullW", dict(evm="EvmD", ont="OntNone", max_ops=40, max_block_txs=1, max_height=4), None))
         runs.append(("simQ", dict(evm="EvmQ", ont="OntQ", max_ops=14, max_height=4), ("num=400", 14)))
     npaths = nedges = 0
     names, results = set(), set()
